@@ -57,10 +57,10 @@ def Header.parseFinish (first : UInt8) (opcode : OpCode) (length : Nat) (mask : 
     .error (.protocol (.invalidOpcode (first &&& UInt8.ofNat opcodeMask).toNat))
   else
     .header
-      { fin := (first &&& UInt8.ofNat bitFin) != 0
-        rsv1 := (first &&& UInt8.ofNat bitRsv1) != 0
-        rsv2 := (first &&& UInt8.ofNat bitRsv2) != 0
-        rsv3 := (first &&& UInt8.ofNat bitRsv3) != 0
+      { fin := (first &&& UInt8.ofNat parseBitFin) != 0
+        rsv1 := (first &&& UInt8.ofNat parseBitRsv1) != 0
+        rsv2 := (first &&& UInt8.ofNat parseBitRsv2) != 0
+        rsv3 := (first &&& UInt8.ofNat parseBitRsv3) != 0
         opcode := opcode
         mask := mask }
       length used
@@ -68,7 +68,7 @@ def Header.parseFinish (first : UInt8) (opcode : OpCode) (length : Nat) (mask : 
 /-- mask part of `parse_internal` -/
 def Header.parseMask (first second : UInt8) (opcode : OpCode) (length : Nat) (rest : Bytes)
     (used : Nat) : ParseRes :=
-  if (second &&& UInt8.ofNat bitMasked) != 0 then
+  if (second &&& UInt8.ofNat parseBitMasked) != 0 then
     match rest with
     | a :: b :: c :: d :: _ => Header.parseFinish first opcode length (some ⟨a, b, c, d⟩) (used + 4)
     | _ => .incomplete
